@@ -274,7 +274,14 @@ impl<'a> G<'a> {
                     let mut items = Vec::new();
                     for _ in 0..m { let mut li = N::el("li", self.flow(depth + 2)); self.maybe_id(&mut li, false); items.push(li); }
                     self.stray_into(&mut items);
-                    if self.r.chance(1, 3) { N::el("ol", items) } else { N::ela("ol", vec![("start", format!("{}", st))], items) }
+                    // (attributes around `start`: their order does not matter)
+                    if self.r.chance(1, 3) { N::el("ol", items) } else {
+                        let mut attrs: Vec<(&str, String)> = vec![];
+                        if self.r.chance(1, 4) { attrs.push((*self.r.pick(&["class", "type", "title"]), "1".to_string())); }
+                        attrs.push(("start", format!("{}", st)));
+                        if self.r.chance(1, 6) { attrs.push(("reversed", "".to_string())); }
+                        N::ela("ol", attrs, items)
+                    }
                 }
                 7 if f.heads => { let l = 1 + self.r.below(6); N::el(&format!("h{}", l), self.inlines(depth + 1)) }
                 8 if f.dl => {
